@@ -14,9 +14,16 @@ open Godi.Container
 in that scope — direct, keyed, as a group member (`resolveMembers` calls `resolveDesc`), or as a
 constructor argument (`buildArgs` calls `resolve`) — returns that instance and constructs nothing -/
 theorem cache_hit (beh : Beh) (st : State) (s f : Nat) (d : Desc) (v : Val) (hl : d.life = .scoped)
-    (hc : lookup ((st.scope s).instances.getD []) d.ident = some v) :
+    (hc : lookup ((st.scope s).instances.getD []) d.ident = some v) (hva : v ≠ .absent) :
     resolveDesc beh (f + 1) st s d = (st, .ok v) := by
-  unfold resolveDesc; simp [hl, hc]
+  unfold resolveDesc; simp only [hl, hc]
+
+/-- ... and an identity whose result-object field the constructor left nil is remembered as constructed:
+resolving it reports a validation error and constructs nothing (the repair of D15) -/
+theorem nil_field_not_constructed_again (beh : Beh) (st : State) (s f : Nat) (d : Desc) (hl : d.life = .scoped)
+    (hc : lookup ((st.scope s).instances.getD []) d.ident = some .absent) :
+    resolveDesc beh (f + 1) st s d = (st, .error [.validation]) := by
+  unfold resolveDesc; simp only [hl, hc]
 
 /-- CACHED ON CREATION: storing a scoped instance in an open scope makes the cache answer it -/
 theorem stored_is_cached (st : State) (s : Nat) (d : Desc) (v : Val) (hl : d.life = .scoped)
@@ -84,7 +91,7 @@ guarantees (`WF`, `RegWF`) and a rank on constructors that strictly decreases al
 dependency (plain, keyed, group member, parameter-object field) — it exists exactly when the
 dependency relation is acyclic, which Build has checked. For every such registry, every constructor
 behaviour (failures and panics at any invocation included; `NoNilOutputs`: no result-object field left
-nil — the recorded finding D15), every state satisfying the invariant and every history of
+nil — what a nil field does after the repair of D15 is `nil_field_not_constructed_again`), every state satisfying the invariant and every history of
 Get / GetKeyed / GetGroup / CreateScope / Close over existing scopes: in no scope does the
 constructor of a scoped registration succeed twice, and once it has succeeded every identity of the
 registration (aliases, multiple returns, result fields) is cached in that scope, so every later
